@@ -8,8 +8,10 @@ value of a digit string; `ValidDigits base s`: every character is `0-9a-zA-Z` of
 `< base`; `hexEncodeSpec` = two lower-case digits per byte.
 -/
 import Golib.Proof.C15Parse
+import Golib.Proof.C15Spec
 import Golib.Proof.C15Underscore
 import Golib.Proof.C15Hex
+import Golib.Proof.C15HexText
 import Golib.Proof.C15IP
 import Golib.Proof.C15Facts
 
@@ -174,6 +176,27 @@ theorem c15_parseUint_args (s : List Nat) (base bits : Int) :
   ⟨fun h => h ▸ parseUint_empty base bits, parseUint_bad_base s base bits,
    parseUint_bad_bitSize s base bits⟩
 
+/-- The single full-strength statement: for EVERY string, EVERY Go `int` base and EVERY Go `int`
+bit size the code-mirroring model of `ParseUint` returns what the specification
+`parseUintSpec` says (argument checks in order; then range error / syntax error / value of
+the digits, phrased with the positional value of the longest acceptable prefix — no digit
+loop, no cut-off, no wrapped arithmetic).  `c15_parseUint_total`, `…_total_base0` and `…_args`
+are its three branches. -/
+theorem c15_parseUint_spec (s : List Nat) (base bitSize : Int) :
+    parseUint s base bitSize = parseUintSpec s base bitSize :=
+  parseUint_eq_spec s base bitSize
+
+-- the specification evaluated: "" → syntax whatever the rest; base 37, 1, -1 → base error;
+-- bit size 65, -1 → bit-size error; lone "0x" under base 0 → syntax; "0X_fF" → 255; "+1" → syntax;
+-- "18446744073709551616" (2^64) base 10 bit size 0 → (2^64-1, range)
+example : parseUintSpec [] 37 65 = (0, .syntax) ∧ parseUintSpec [49] 37 65 = (0, .base) ∧
+    parseUintSpec [49] 1 8 = (0, .base) ∧ parseUintSpec [49] (-1) 8 = (0, .base) ∧
+    parseUintSpec [49] 10 65 = (0, .bitSize) ∧ parseUintSpec [49] 0 (-1) = (0, .bitSize) ∧
+    parseUintSpec [48, 120] 0 64 = (0, .syntax) ∧ parseUintSpec [48, 88, 95, 102, 70] 0 8 = (255, .ok) ∧
+    parseUintSpec [43, 49] 10 64 = (0, .syntax) ∧
+    parseUintSpec [49, 56, 52, 52, 54, 55, 52, 52, 48, 55, 51, 55, 48, 57, 53, 53, 49, 54, 49, 54] 10 0
+      = (18446744073709551615, .range) := by decide
+
 /-- `HexEncode` never panics and produces two lower-case hex digits per byte. -/
 theorem c15_hex_lower (bs : List Nat) (h : ∀ b ∈ bs, b < 256) :
     ∃ out, hexEncode? bs = some out ∧ out = hexEncodeSpec bs ∧ out.length = 2 * bs.length ∧
@@ -238,6 +261,22 @@ example : hexDecode? [49, 103, 51] = some ([], .invalidByte 103) ∧
     hexDecode? [97, 98, 99] = some ([171], .length) ∧
     (HErr.invalidByte 103).text = some (asciiBytes "encoding/hex: invalid byte: U+0067 'g'") := by
   decide
+
+/-- The error TEXT (part of the property): the error values returned by the decoders print as
+`encoding/hex: odd length hex string` resp. `encoding/hex: invalid byte: U+00XY` followed, for
+a printable Latin-1 byte, by the quoted character in UTF-8 (`invalidByteTextSpec`, written out
+byte by byte) — for every byte value; a nil error has no text. -/
+theorem c15_hex_error_text :
+    (∀ c, c < 256 → (HErr.invalidByte c).text = some (invalidByteTextSpec c)) ∧
+    HErr.length.text = some (asciiBytes "encoding/hex: odd length hex string") ∧
+    HErr.ok.text = none :=
+  ⟨invalidByte_text, rfl, rfl⟩
+
+-- 'g' → U+0067 'g'; NUL → U+0000 (no quote); 0xE9 → U+00E9 'é' (two UTF-8 bytes); 0xAD → U+00AD
+example : invalidByteTextSpec 103 = asciiBytes "encoding/hex: invalid byte: U+0067 'g'" ∧
+    invalidByteTextSpec 0 = asciiBytes "encoding/hex: invalid byte: U+0000" ∧
+    invalidByteTextSpec 0xe9 = asciiBytes "encoding/hex: invalid byte: U+00E9 '" ++ [0xc3, 0xa9, 39] ∧
+    invalidByteTextSpec 0xad = asciiBytes "encoding/hex: invalid byte: U+00AD" := by decide
 
 /-- `IPv4ToLong(LongToIPv4(x)) = x` for every 32-bit `x`. -/
 theorem c15_ipv4_roundtrip (x : Nat) (hx : x < 2 ^ 32) : ipv4ToLong (longToIPv4 x) = x :=
